@@ -251,6 +251,7 @@ pub proof fn lemma_expected_properties(max: int, t: Transfer, p: Seq<u8>)
             &&& fs[0].0 == t_first(t)                                                            // (e) identifiers only on frame 0
             &&& (forall|i: int| 1 <= i < n ==> (#[trigger] fs[i]).0.delivery_id is None && fs[i].0.delivery_tag is None
                     && fs[i].0.message_format is None && fs[i].0.settled is None && fs[i].0.rcv_settle_mode is None)
+            &&& (forall|i: int| 0 <= i < n ==> (#[trigger] fs[i]).0.state == t.state && fs[i].0.handle == t.handle)   // (f) every frame carries the transfer's delivery state (the txn-id of a transactional post: the listener withholds a frame only if it names the transaction) and its handle
         }),
 {
     broadcast use enc_more_monotone;
@@ -319,7 +320,7 @@ impl FrameEncoder {
     // no precondition on the size of the performative: a transfer whose performative alone fills the frame body (a long delivery state: an error description, a peer-chosen txn-id) must be REFUSED, not panic the connection engine (`max - len` underflow) or loop for ever cutting zero-length chunks   [C15.encode.oversized-performative-refused]
     ensures
         r is Ok && enc(transfer).len() + payload@.len() > self.max_frame_body_size ==> fits(self.max_frame_body_size as int, transfer),   // [C15.encode.oversized-performative-refused]
-        r is Ok ==> final(dst)@ == old(dst)@ + flatten(channel, expected(self.max_frame_body_size as int, transfer, payload@)),   // [C06.split.exact] the bytes appended are exactly the frames of `expected`: header + performative + chunk each [C01.split.payload-preserved] [C11.split.ids-first-frame-only]
+        r is Ok ==> final(dst)@ == old(dst)@ + flatten(channel, expected(self.max_frame_body_size as int, transfer, payload@)),   // [C06.split.exact] the bytes appended are exactly the frames of `expected`: header + performative + chunk each [C01.split.payload-preserved] [C11.split.ids-first-frame-only] [C18.split.state-on-every-frame]
 //@@ entry
         let ghost t0 = transfer;
         let ghost p0 = payload@;
